@@ -17,6 +17,6 @@ echo "script-mode exit codes: without=$S0 with=$S1"
 cp $SRC/patch.diff $SRC/demo_test.py $OUT/ 2>/dev/null; cp $SRC/notes.md $OUT/notes.md 2>/dev/null
 for C in $CHECKS; do
   echo "== bin/check $C (quick) against the change"
-  (cd /verif && VERIF_REPO=$WT timeout 1800 bin/check $C 2>&1 | grep -E "VIOLATION|signature|KNOWN-FINDING|tier=|MACHINERY" | cut -c1-300) | tee $OUT/check-$C.txt
+  (cd ${VERIF_DIR:-/verif} && VERIF_REPO=$WT timeout 1800 bin/check $C 2>&1 | grep -E "VIOLATION|signature|KNOWN-FINDING|tier=|MACHINERY" | cut -c1-300) | tee $OUT/check-$C.txt
 done
 git -C /repo worktree remove --force $WT
